@@ -24,6 +24,7 @@ fn text_of(v: &Value) -> String {
 }
 const TITLE: &str = "TITLE_MARKER_4711";
 const BODY: &str = "BODY_MARKER_0815";
+const LABEL: &str = "LABEL_MARKER_66"; // a page-label prefix: a string under the key /P of an ordinary dictionary
 const AUTHOR: &str = "\u{c4}UTHOR_\u{3a9}_9"; // outside PDFDocEncoding: written as UTF-16BE
 
 fn contains(h: &[u8], n: &[u8]) -> bool {
@@ -43,6 +44,7 @@ fn library_view(bytes: &[u8], user: &str, owner: &str, wrong: &str) -> Value {
             };
             Ok((r, ok))
         };
+        let nums = crate::c03::object_numbers(&b);
         let read_markers = |r: PdfReader<Cursor<Vec<u8>>>| -> (Vec<bool>, u32) {
             let mut r = r;
             let md = r.metadata().ok();
@@ -56,7 +58,8 @@ fn library_view(bytes: &[u8], user: &str, owner: &str, wrong: &str) -> Value {
                     body = ss.iter().any(|s| contains(s, BODY.as_bytes()));
                 }
             }
-            (vec![title == TITLE, body, author == AUTHOR], perm)
+            let label = any_string_contains(&doc, &nums, LABEL.as_bytes());
+            (vec![title == TITLE, body, author == AUTHOR, label], perm)
         };
         let mut v = json!({"opened": false, "encrypted": false, "wrongRefused": false, "lockedLeak": false, "userUnlock": false, "ownerUnlock": false,
                            "userMarkers": [false], "ownerMarkers": [false], "permBits": 0, "err": ""});
@@ -95,11 +98,28 @@ fn library_view(bytes: &[u8], user: &str, owner: &str, wrong: &str) -> Value {
                                  "userMarkers": [false], "ownerMarkers": [false], "permBits": 0, "err": "panic"}))
 }
 
+fn pobj_has(o: &oxidize_pdf::parser::objects::PdfObject, want: &[u8]) -> bool {
+    use oxidize_pdf::parser::objects::PdfObject;
+    match o {
+        PdfObject::String(s) => contains(s.as_bytes(), want),
+        PdfObject::Array(a) => a.0.iter().any(|x| pobj_has(x, want)),
+        PdfObject::Dictionary(d) => d.0.values().any(|x| pobj_has(x, want)),
+        PdfObject::Stream(st) => st.dict.0.values().any(|x| pobj_has(x, want)),
+        _ => false,
+    }
+}
+
+/// Does some string of some object of the (unlocked) document contain `want`?
+fn any_string_contains(doc: &oxidize_pdf::parser::PdfDocument<Cursor<Vec<u8>>>, nums: &[u32], want: &[u8]) -> bool {
+    nums.iter().any(|n| doc.get_object(*n, 0).map(|o| pobj_has(&o, want)).unwrap_or(false))
+}
+
 fn markers() -> Value {
     json!([{"where": "info", "page": 0, "n": 0, "key": [84, 105, 116, 108, 101], "bytes": TITLE.as_bytes(), "secret": true},
            {"where": "content", "page": 1, "n": 0, "key": [], "bytes": BODY.as_bytes(), "secret": true},
            {"where": "info", "page": 0, "n": 0, "key": [65, 117, 116, 104, 111, 114],
-            "bytes": AUTHOR.encode_utf16().flat_map(|u| u.to_be_bytes()).collect::<Vec<u8>>(), "secret": true}])
+            "bytes": AUTHOR.encode_utf16().flat_map(|u| u.to_be_bytes()).collect::<Vec<u8>>(), "secret": true},
+           {"where": "anywhere", "page": 0, "n": 0, "key": [], "bytes": LABEL.as_bytes(), "secret": true}])
 }
 
 fn run(a: &Args) {
@@ -124,6 +144,7 @@ fn run(a: &Args) {
             let mut page = Page::new(200.0, 100.0);
             page.text().set_font(Font::Helvetica, 12.0).at(10.0, 50.0).write(BODY).map_err(|e| e.to_string())?;
             doc.add_page(page);
+            doc.set_page_labels(oxidize_pdf::page_labels::PageLabelBuilder::new().prefix_pages(1, LABEL).build());
             doc.set_encryption(DocumentEncryption::new(u2, o2, Permissions::from_bits(p as u32), strength));
             doc.to_bytes_with_config(crate::c03::config_of(&c2["cfg"])).map_err(|e| e.to_string())
         });
